@@ -1,7 +1,7 @@
 From Coq Require Import List NArith ZArith Bool.
 From SK Require Import lib.LGraph lib.Mono.
 From SK Require model.C06_Model model.C11_Model.
-From SK Require Import model.C03_Model model.C05_Model proof.C05_Proof proof.C05_Glue proof.C05_Pipe proof.C05_Prep proof.C05_Comp proof.C05_Main proof.C05_Order proof.C05_Sub proof.C05_Set proof.C05_Result proof.C05_AllStrat proof.C05_PrepOrder proof.C05_Final proof.C05_Default proof.C05_Thms.
+From SK Require Import model.C03_Model model.C05_Model proof.C05_Proof proof.C05_Glue proof.C05_Pipe proof.C05_Prep proof.C05_Comp proof.C05_Main proof.C05_Order proof.C05_Sub proof.C05_Set proof.C05_Result proof.C05_AllStrat proof.C05_PrepOrder proof.C05_Final proof.C05_Default proof.C05_Rewrite proof.C05_Capstone proof.C05_Thms.
 From SK Require Import lib.C06_Spec proof.C06_Comp.
 From SK Require proof.C11_Dedup.
 From Coq Require Import Permutation.
@@ -315,3 +315,69 @@ Theorem C05_pipeline_set_invariant_default :
         exists T, In T (glued_of strat host (prep_default inv tpl)) /\ obs_eq (relabel pi T) T'')).
 Proof. exact thm_pipeline_set_invariant_default. Qed.
 Print Assumptions C05_pipeline_set_invariant_default.
+
+(** 11. The premise "the second writing is the first one renumbered and re-ordered" of sections 8-10 is checked inside Coq
+    on every case: the harness hands over, for every compared writing, the renumberings (pi, sg) it found with networkx
+    between the graphs the IMPLEMENTATION parsed from the two writings, and the run function [run_c05w] evaluates
+    [rewriting_okb].  This theorem says what a [true] means: both renumberings are injective functions on node ids and the
+    writing is [same_graph] to the renumbered base — substrate and template.  (So for every compared writing of every case
+    the hypotheses of 9 / 10 other than the well-formedness of the template are established by evaluation, and the RDKit
+    contract "a rewritten SMILES parses to the same graph" is checked, not assumed, for that case.) *)
+Theorem C05_rewriting_monitor :
+  forall (host0 host : hostg) (tpl0 tpl : its) (pi sg : list (N * N)),
+    rewriting_okb host0 tpl0 (host, tpl, pi, sg) = true ->
+    inj (apply_map pi) /\ inj (apply_map sg) /\
+    same_graph (relabel (apply_map pi) host0) host /\ same_graph (relabel (apply_map sg) tpl0) tpl /\
+    simple_edgesb (gedges tpl0) = true /\ simple_edgesb (gedges tpl) = true.
+Proof. exact thm_rewriting_monitor. Qed.
+Print Assumptions C05_rewriting_monitor.
+
+(** 12. CAPSTONES — the statements of 8, 9 and 10 with every premise about the two writings in the form the run function
+    evaluates on that very case: [side_okb_c] on the base writing AND on the other writing (the premise on the renumbered
+    base of 8-10 follows: the premises are themselves invariant under renumbering), and [rewriting_okb] for "the other
+    writing is the base renumbered and re-ordered" (11).  What remains assumed is outside the two writings: for 12b the
+    base template is prepared with no explicit X-H bond (an observable of the case), for 12c both templates are
+    hydrogen-free with distinct ids (evaluable booleans).
+    12a: prepared rules, every strategy. *)
+Theorem C05_result_set_invariant_checked :
+  forall (strat : N), strat = 0%N \/ strat = 1%N \/ strat = 2%N ->
+  forall (sg pi : N -> N), inj sg -> inj pi ->
+  forall (host0 host : hostg) (p0 p : prepared),
+    side_okb_c host0 p0 = true -> side_okb_c host p = true ->
+    same_graph (relabel pi host0) host -> same_graph (relabel sg (p_rc p0)) (p_rc p) -> same_graph (relabel sg (p_pat p0)) (p_pat p) ->
+    (forall T, In T (glued_of strat host0 p0) -> exists T', In T' (glued_of strat host p) /\ obs_eq (relabel pi T) T') /\
+    (forall T', In T' (glued_of strat host p) -> exists T, In T (glued_of strat host0 p0) /\ obs_eq (relabel pi T) T').
+Proof. exact thm_result_set_invariant_checked. Qed.
+Print Assumptions C05_result_set_invariant_checked.
+
+(** 12b: from the template, implicit-hydrogen mode. *)
+Theorem C05_pipeline_checked_implicit :
+  forall (strat : N), strat = 0%N \/ strat = 1%N \/ strat = 2%N ->
+  forall (inv : bool) (host0 host : hostg) (tpl0 tpl : its) (pi sg : list (N * N)) (p0 : prepared),
+    rewriting_okb host0 tpl0 (host, tpl, pi, sg) = true ->
+    prepare inv true tpl0 = Some p0 -> p_flag p0 = false -> side_okb_c host0 p0 = true ->
+    exists p, prepare inv true tpl = Some p /\ p_flag p = false /\
+      pipeline inv true false strat host0 tpl0 = Some (glued_of strat host0 p0) /\
+      pipeline inv true false strat host tpl = Some (glued_of strat host p) /\
+      (side_okb_c host p = true ->
+       (forall T, In T (glued_of strat host0 p0) -> exists T', In T' (glued_of strat host p) /\ obs_eq (relabel (apply_map pi) T) T') /\
+       (forall T', In T' (glued_of strat host p) -> exists T, In T (glued_of strat host0 p0) /\ obs_eq (relabel (apply_map pi) T) T')).
+Proof. exact thm_pipeline_checked_implicit. Qed.
+Print Assumptions C05_pipeline_checked_implicit.
+
+(** 12c: from the template, default configuration, hydrogen-free templates. *)
+Theorem C05_pipeline_checked_default :
+  forall (strat : N), strat = 0%N \/ strat = 1%N \/ strat = 2%N ->
+  forall (inv : bool) (host0 host : hostg) (tpl0 tpl : its) (pi sg : list (N * N)),
+    rewriting_okb host0 tpl0 (host, tpl, pi, sg) = true ->
+    nodupb (node_ids tpl0) = true -> noHb tpl0 = true -> (forall k a, In (k, a) (gnodes tpl0) -> i_hp a = None \/ i_hp a = Some []) ->
+    nodupb (node_ids tpl) = true -> noHb tpl = true -> (forall k a, In (k, a) (gnodes tpl) -> i_hp a = None \/ i_hp a = Some []) ->
+    side_okb_c host0 (prep_default inv tpl0) = true -> side_okb_c host (prep_default inv tpl) = true ->
+    pipeline inv false true strat host0 tpl0 = Some (glued_of strat host0 (prep_default inv tpl0)) /\
+    pipeline inv false true strat host tpl = Some (glued_of strat host (prep_default inv tpl)) /\
+    (forall T, In T (glued_of strat host0 (prep_default inv tpl0)) ->
+       exists T', In T' (glued_of strat host (prep_default inv tpl)) /\ obs_eq (relabel (apply_map pi) T) T') /\
+    (forall T', In T' (glued_of strat host (prep_default inv tpl)) ->
+       exists T, In T (glued_of strat host0 (prep_default inv tpl0)) /\ obs_eq (relabel (apply_map pi) T) T').
+Proof. exact thm_pipeline_checked_default. Qed.
+Print Assumptions C05_pipeline_checked_default.
